@@ -1,3 +1,4 @@
+import math
 import numbers
 import ctypes
 from enum import Enum
@@ -72,6 +73,9 @@ class Type:
         if self.is_array:
             return False
         if self.is_numeric and isinstance(value, numbers.Number):
+            if isinstance(value, float) and not math.isfinite(value):
+                # an infinity or a NaN is the result of an overflow
+                return False
             if self._type == BuiltinType.INTEGER:
                 return -32768 <= value <= 32767
             elif self._type == BuiltinType.LONG:
